@@ -302,14 +302,18 @@ func StreamC02(sp *spec.Spec, sv *spec.Service, m *spec.Method, ex *rt.Exchange,
 		tags = mergeTags(tags, Explain(sp, streamFake(m, m.StreamP), msg))
 	}
 	sent := len(sc.Send)
+	handed := len(rec.ClientSent)
+	if sc.RawClient {
+		handed = rec.RawSent
+	}
+	if handed < sent && rec.SendErr == "" {
+		// the client's script ended before everything was sent (its Recv failed in a ping-pong, the stream was
+		// not opened, a message could not be built): nothing of that is a request-side matter
+		v.Inconclusive = "client script stopped before all messages were sent (result side: C03)"
+		return
+	}
 	if !sc.RawClient {
 		// what the value builder handed to Send must be what the case scripted, else the lab is at fault
-		if len(rec.ClientSent) < sent && rec.SendErr == "" && ex.BuildErr == "" && rec.ClientOpen != "" {
-			if !(sc.Proto == "pingpong" && len(rec.ClientSent) == len(rec.ClientRecv)+1) && !(sc.Proto == "pingpong" && rec.RecvEnd != "") {
-				v.Inconclusive = "client script stopped early"
-				return
-			}
-		}
 		for i := range rec.ClientSent {
 			if i < sent && len(vtree.DiffS(rt.NormKeys(sc.Send[i]), rec.ClientSent[i])) > 0 {
 				v.Inconclusive = "value builder: streamed message built differs from the scripted one"
@@ -363,6 +367,13 @@ func StreamC03(sp *spec.Spec, sv *spec.Service, m *spec.Method, ex *rt.Exchange)
 	sc, rec := ex.Case.Stream, ex.Stream
 	kind := m.Stream
 	viewed := isViewed(sp, m)
+	if viewed {
+		ut, _ := cases.ResultUserType(sp, m)
+		if requiredObjectOutsideView(sp, ut, viewOf(m, oc), 0) || recursiveResultType(sp, ut) {
+			v.Inconclusive = "viewed stream result in the trigger class of a listed C08 finding"
+			return v
+		}
+	}
 	var rtags []string
 	if ex.Panic != "" {
 		v.add("panic:"+panicSite(ex.Panic)+":stream:"+kind, "panic while streaming valid results: %s", firstLine(ex.Panic))
@@ -382,6 +393,10 @@ func StreamC03(sp *spec.Spec, sv *spec.Service, m *spec.Method, ex *rt.Exchange)
 		}
 	}
 	// the stub's end must have gone to plan, else the result side has nothing to judge
+	if kind != "server" && rec.StubEnd != "" && rec.StubEnd != "eof" && rec.StubEnd != "count" {
+		v.Inconclusive = "the service's Recv failed before it could answer (C02)"
+		return v
+	}
 	if rec.StubSndErr != "" {
 		v.add(fmt.Sprintf("stream:%s:results:service-send-error:%s", kind, errClass(rec.StubSndErr, "")), "the service's Send failed after %d of %d messages: %s", len(rec.StubSent), len(oc.StreamResults), trunc(rec.StubSndErr, 200))
 		return v
@@ -391,6 +406,23 @@ func StreamC03(sp *spec.Spec, sv *spec.Service, m *spec.Method, ex *rt.Exchange)
 	if upgraded && rec.Handshake != 101 {
 		v.add(fmt.Sprintf("stream:%s:handshake-status:want-101:got-%d", kind, rec.Handshake), "the service used the stream but the handshake was answered %d", rec.Handshake)
 		return v
+	}
+	if viewed && upgraded && m.Result.View == "" && kind != "client" && len(rec.StubSent) > 0 && ex.WireResp != nil {
+		// the view the service chose travels in the goa-view header of the handshake response
+		gv, has := hdr(ex.WireResp.Header, "goa-view")
+		view := viewOf(m, oc)
+		switch {
+		case (!has || gv == "") && view != "default":
+			first := "Send"
+			if len(rec.Steps) > 0 && strings.HasPrefix(firstStubStep(rec.Steps), "stub_recv") {
+				first = "Recv"
+			}
+			v.add("stream:"+kind+":goa-view-header-missing:first-call-"+first, "service chose view %q but the handshake response carries no goa-view header (the service's first stream call was %s)", view, first)
+			return v // the client cannot know the view: what it reads follows from that
+		case has && gv != "" && gv != view:
+			v.add("stream:"+kind+":goa-view-header-wrong", "goa-view=%q, service chose %q", gv, view)
+			return v
+		}
 	}
 	if !upgraded {
 		// the service returned without touching the stream (server stream without messages): the connection is
@@ -547,4 +579,14 @@ func viewOf(m *spec.Method, oc *rt.Outcome) string {
 		return oc.View
 	}
 	return "default"
+}
+
+// firstStubStep returns the first event of the service's end of the stream.
+func firstStubStep(steps []string) string {
+	for _, st := range steps {
+		if strings.HasPrefix(st, "stub_recv") || strings.HasPrefix(st, "stub_send") {
+			return st
+		}
+	}
+	return ""
 }
